@@ -68,6 +68,22 @@ def pair_scope(sa, sb):
     return tags
 
 
+
+def exhaustive(tier):
+    """all ordered pairs of one-state automata over one symbol, and of two-state NFAs with one-state automata"""
+    if tier != "thorough":
+        return
+    ones = list(F.enumerate_fa(1, 1, "E"))
+    for a in ones:
+        for b in ones:
+            yield {"a": a, "b": b}
+    twos = list(F.enumerate_fa(2, 1, "N"))
+    for a in twos:
+        for b in ones:
+            yield {"a": a, "b": b}
+            yield {"a": b, "b": a}
+
+
 def run_case(case, drv):
     res = CaseResult()
     sa, sb = case["a"], case["b"]
